@@ -19,6 +19,7 @@
 package main
 
 import (
+	"encoding/json"
 	"flag"
 	"fmt"
 	"runtime"
@@ -573,6 +574,9 @@ func runPool(r *h.Run, c caseT) {
 	if !decided {
 		watchdogsFired.Add(1)
 		r.Inconclusive(fmt.Sprintf("kind=pool case=%d pool never became idle within the watchdog: no verdict", c.Index))
+		c0, t0 := h.CPUTime(), time.Now()
+		time.Sleep(time.Second)
+		fmt.Printf("kind=pool case=%d watchdog: running=%d started=%d ended=%d issued=%d cpu over the last second=%v of %v\n%s\n", c.Index, running.Load(), started.Load(), ended.Load(), issued.Load(), h.CPUTime()-c0, time.Since(t0), h.Stacks())
 		if sc == 0 {
 			p.Stop()
 		}
@@ -1091,7 +1095,19 @@ func runCase(r *h.Run, c caseT) {
 
 func main() {
 	only := flag.String("only", "", "run only this kind of case (experiments)")
+	gen := flag.String("gen", "", "kind:index - print that case as a replay file for the current VERIF_SEED/VERIF_TIER and exit")
 	r := h.Start("C19")
+	if *gen != "" {
+		var kind string
+		var i int
+		if k := strings.SplitN(*gen, ":", 2); len(k) == 2 {
+			kind = k[0]
+			fmt.Sscan(k[1], &i)
+		}
+		b, _ := json.MarshalIndent(map[string]interface{}{"property": "C19", "phase": r.Phase, "tier": r.Tier, "seed": r.Seed, "case": genCase(r, kind, i)}, "", " ")
+		fmt.Println(string(b))
+		return
+	}
 	defer r.Finish()
 	logging.SetLogger(lg)
 	taskpool.VerifSetPoint(poolHook)
